@@ -23,6 +23,9 @@ use crate::{
 };
 pub type RawVal = u64;
 pub type ReturnCode = i64;
+/// Returned by [`Machine::execute`] when the call depth limit set with
+/// [`Machine::set_call_depth_limit`] was exceeded.
+pub const RETURN_CALL_DEPTH_EXCEEDED: ReturnCode = -2;
 
 #[derive(Debug, Default, PartialEq)]
 struct StateStorage {
@@ -251,6 +254,15 @@ pub struct Machine {
     /// Each entry is an interned `ExprNodeId`; the index into this vec is
     /// stored as a `RawVal` on the VM stack.
     code_values: Vec<ExprNodeId>,
+    /// Nesting of calls currently in progress (`call_function` recurses natively).
+    call_depth: usize,
+    /// Bound of `call_depth`, set only for the compile-time (stage-0) machine:
+    /// a macro-level function that recurses without end must become a compile
+    /// error, not a native stack overflow. `None` (the default) means no bound.
+    call_depth_limit: Option<usize>,
+    /// Name of the function whose call exceeded `call_depth_limit`, once that happened.
+    /// The machine unwinds (every `execute` returns [`RETURN_CALL_DEPTH_EXCEEDED`]) and is unusable afterwards.
+    call_depth_exceeded: Option<String>,
 }
 
 macro_rules! binop {
@@ -445,6 +457,9 @@ impl Machine {
             current_ext_call_nargs: 0,
             current_ext_call_idx: None,
             code_values: vec![],
+            call_depth: 0,
+            call_depth_limit: None,
+            call_depth_exceeded: None,
         };
         extfns.for_each(|ExtFunInfo { name, fun, .. }| {
             let _ = res.install_extern_fn(name, fun);
@@ -475,6 +490,9 @@ impl Machine {
             current_ext_call_nargs: 0,
             current_ext_call_idx: None,
             code_values: vec![],
+            call_depth: 0,
+            call_depth_limit: None,
+            call_depth_exceeded: None,
         };
         //expect there are no change changes in external function use for now
 
@@ -677,7 +695,13 @@ impl Machine {
             .map(|i| self.get_stack(i as i64))
             .collect::<Vec<_>>();
 
+        self.call_depth += 1;
         let nret = action(self);
+        self.call_depth -= 1;
+        if self.call_depth_exceeded.is_some() {
+            // Unwinding: the frames below are abandoned as they are.
+            return RETURN_CALL_DEPTH_EXCEEDED;
+        }
 
         if nret_req > nret as TypeSize {
             if nret == 1 && arg_snapshot.len() >= nret_req as usize {
@@ -936,6 +960,16 @@ impl Machine {
         let mut local_heap_closures: Vec<heap::HeapIdx> = vec![];
         let mut upv_map = LocalUpValueMap::default();
         let mut pcounter = 0;
+        if self
+            .call_depth_limit
+            .is_some_and(|limit| self.call_depth > limit)
+        {
+            self.call_depth_exceeded
+                .get_or_insert_with(|| self.prog.global_fn_table[func_i].0.clone());
+        }
+        if self.call_depth_exceeded.is_some() {
+            return RETURN_CALL_DEPTH_EXCEEDED;
+        }
         // if cfg!(test) {
         //     log::trace!("{:?}", func);
         // }
@@ -985,12 +1019,18 @@ impl Machine {
                         machine.execute(pos_of_f, Some(cls_i))
                     });
                     self.states_stack.pop();
+                    if self.call_depth_exceeded.is_some() {
+                        return RETURN_CALL_DEPTH_EXCEEDED;
+                    }
                 }
                 Instruction::Call(func, nargs, nret_req) => {
                     let pos_of_f = Self::get_as::<usize>(self.get_stack(func as i64));
                     self.call_function(func, nargs, nret_req, move |machine| {
                         machine.execute(pos_of_f, None)
                     });
+                    if self.call_depth_exceeded.is_some() {
+                        return RETURN_CALL_DEPTH_EXCEEDED;
+                    }
                 }
                 Instruction::CallExtFun(func, nargs, nret_req) => {
                     let ext_fn_idx = self.get_stack(func as i64) as usize;
@@ -1014,6 +1054,9 @@ impl Machine {
                     };
                     self.current_ext_call_nargs = prev_nargs;
                     self.current_ext_call_idx = prev_ext_call_idx;
+                    if self.call_depth_exceeded.is_some() {
+                        return RETURN_CALL_DEPTH_EXCEEDED;
+                    }
 
                     // Shift return values one position left so they start at
                     // register `func` (the slot that held the function ref).
@@ -1178,6 +1221,9 @@ impl Machine {
                                 machine.execute(pos_of_f, None)
                             });
                         }
+                    }
+                    if self.call_depth_exceeded.is_some() {
+                        return RETURN_CALL_DEPTH_EXCEEDED;
                     }
                 }
                 Instruction::Return0 => {
@@ -1488,6 +1534,19 @@ impl Machine {
         let idx = self.code_values.len();
         self.code_values.push(expr);
         idx as RawVal
+    }
+
+    /// Bound the nesting of calls: once more than `limit` calls are in progress,
+    /// execution stops and every pending [`execute`](Self::execute) returns
+    /// [`RETURN_CALL_DEPTH_EXCEEDED`]. Meant for the compile-time (stage-0) machine,
+    /// where a diverging macro must become a diagnostic; a machine that runs `dsp` has no limit.
+    pub fn set_call_depth_limit(&mut self, limit: Option<usize>) {
+        self.call_depth_limit = limit;
+    }
+
+    /// The function whose call exceeded the limit set by [`set_call_depth_limit`](Self::set_call_depth_limit), if that happened.
+    pub fn call_depth_exceeded(&self) -> Option<&str> {
+        self.call_depth_exceeded.as_deref()
     }
 
     /// Retrieve a previously stored code value by its `RawVal` index.
